@@ -33,7 +33,7 @@ man = {
     'setup_cmd': 'true',
     'hooks': {
         'guard': 'none (no source hooks: contracts live in /verif/specs and are merged into scratch copies of the extracted functions at check time)',
-        'enable': 'not applicable: checks read /repo sources directly; Kani harnesses are appended to a scratch copy under cfg(kani)',
+        'enable': 'not applicable: checks read /repo sources directly and verify scratch copies of the extracted functions under /verif/work',
         'baseline_off_cmd': 'cd /repo && cargo test --workspace --no-fail-fast --offline',
         'source_commits': [],
         'add_only': True,
